@@ -151,6 +151,31 @@ pub fn single_mutants(j: &Value) -> Vec<(String, Value)> {
                     }
                     out.push((format!("repeat {} to {target}", p.join("/")), m));
                 }
+                // a repeated element that differs from the first one only in a LATER position (rules that walk a repeated
+                // field and compare each occurrence: the first occurrence fine, the second or third one not)
+                for k in [1usize, 2] {
+                    for alt in ["EUR", "USD"] {
+                        let mut m = j.clone();
+                        let mut changed = false;
+                        if let Some(Value::Array(arr)) = at(&mut m, p) {
+                            let e = arr[0].clone();
+                            while arr.len() < 3 { arr.push(e.clone()); }
+                            fn set_ccy(v: &mut Value, alt: &str, changed: &mut bool) {
+                                match v {
+                                    Value::Object(o) => for (key, x) in o.iter_mut() {
+                                        if key == "currency" { if x.as_str() != Some(alt) { *x = json!(alt); *changed = true; } } else { set_ccy(x, alt, changed); }
+                                    },
+                                    Value::Array(a) => for x in a.iter_mut() { set_ccy(x, alt, changed); },
+                                    _ => {}
+                                }
+                            }
+                            set_ccy(&mut arr[k], alt, &mut changed);
+                        }
+                        if changed {
+                            out.push((format!("repeat {} to 3, currency of element {k} = {alt}", p.join("/")), m));
+                        }
+                    }
+                }
             }
             Some(Value::Array(a)) if !a.is_empty() && a[0].is_string() => {
                 for add in ["/REJT/", "/RETN/X", "/rejt/", "REJT", "/ACC/INFO"] {
@@ -159,6 +184,21 @@ pub fn single_mutants(j: &Value) -> Vec<(String, Value)> {
                         arr.push(json!(add));
                     }
                     out.push((format!("push {} {add}", p.join("/")), m));
+                }
+            }
+            // field 23 of MT935 (`3!a[2!n]11x`: currency, number of days, function): the optional days subfield at its
+            // one-digit, two-digit and boundary values with every function word (days are allowed with NOTICE only), and
+            // every function word and a non-word without days — no scenario ever carries days
+            Some(Value::Object(o)) if o.contains_key("function_code") && o.contains_key("reference") => {
+                for func in ["NOTICE", "CURRENT", "BASE", "CALL", "COMMERCIAL", "DEPOSIT", "PRIME", "NOTICES", "7NOTICE", "X"] {
+                    for days in [None, Some(1u32), Some(7), Some(9), Some(10), Some(31), Some(99)] {
+                        let mut m = j.clone();
+                        if let Some(Value::Object(f)) = at(&mut m, p) {
+                            f.insert("reference".into(), json!(func));
+                            match days { Some(d) => { f.insert("days".into(), json!(d)); } None => { f.remove("days"); } }
+                        }
+                        out.push((format!("field23 {} days={days:?} function={func}", p.join("/")), m));
+                    }
                 }
             }
             Some(Value::Object(_)) => {}
@@ -252,6 +292,192 @@ pub fn charge_mutants(code: u32, j: &Value) -> Vec<(String, Value)> {
     out
 }
 
+/// the sum rules (MT204 C1, MT104 / MT107 C8–C10: field 19 / the settlement amount against the sum of the 32B amounts of
+/// sequence B) with amounts that have cents — 1,15 2,30 0,29 0,57 … are not exact in binary, so an implementation that adds
+/// them in another unit, truncates or rounds per item shows up — over 2, 3, 5 and 10 transactions, the total set to the
+/// exact sum and to the exact sum ± 0,02 / + 0,05 / + 1 (never ± 0,01, the tolerance boundary, where f64 noise decides).
+/// Totals are computed in integer cents and written as the nearest f64, which serde prints back as the same decimal.
+pub fn sum_mutants(code: u32, j: &Value) -> Vec<(String, Value)> {
+    let mut out = Vec::new();
+    if ![104u32, 107, 204].contains(&code) {
+        return out;
+    }
+    const CENTS: &[i64] = &[115, 230, 895, 1605, 435, 7, 29, 57, 58, 101, 110, 999, 100110, 1999, 33, 66, 1, 99, 250000, 1234567];
+    for (vi, n) in [(0usize, 2usize), (1, 2), (2, 3), (3, 5), (4, 10), (5, 3), (6, 2)] {
+        for delta in [0i64, 2, -2, 5, 100] {
+            let mut m = j.clone();
+            let Some(Value::Object(body)) = m.get_mut("fields") else { continue };
+            let mut total = 0i64;
+            {
+                let Some(Value::Array(seq)) = body.get_mut("#") else { continue };
+                if seq.is_empty() { continue; }
+                let first = seq[0].clone();
+                while seq.len() < n { seq.push(first.clone()); }
+                for (k, e) in seq.iter_mut().enumerate() {
+                    let c = CENTS[(vi * 3 + k * (vi + 1)) % CENTS.len()];
+                    if let Some(a) = e.get_mut("32B").and_then(|x| x.get_mut("amount")) {
+                        *a = json!(c as f64 / 100.0);
+                        total += c;
+                    }
+                }
+            }
+            let t = total + delta;
+            if t <= 0 { continue; }
+            let tv = json!(t as f64 / 100.0);
+            if code == 204 {
+                if let Some(a) = body.get_mut("19").and_then(|x| x.get_mut("amount")) { *a = tv.clone(); }
+            } else {
+                // the settlement amount carries the sum (or, with charges, field 19 does): both placements
+                if let Some(a) = body.get_mut("32B").and_then(|x| x.get_mut("amount")) { *a = tv.clone(); }
+                if let Some(a) = body.get_mut("19").and_then(|x| x.get_mut("amount")) { *a = tv.clone(); }
+            }
+            out.push((format!("sums set {vi} x{n} total = sum {delta:+} cents"), m.clone()));
+            if code != 204 {
+                // … and with field 19 present / absent
+                let mut m2 = m.clone();
+                if let Some(Value::Object(b2)) = m2.get_mut("fields") {
+                    if b2.contains_key("19") { b2.remove("19"); } else { b2.insert("19".into(), json!({"amount": t as f64 / 100.0})); }
+                }
+                out.push((format!("sums set {vi} x{n} total = sum {delta:+} cents, 19 toggled"), m2));
+            }
+        }
+    }
+    out
+}
+
+/// the struct declarations of src/messages as the translator reads them on this run (T3s): per struct the members with their
+/// JSON key, type and kind; per enum the variants (JSON key, payload type)
+pub struct Shapes {
+    pub structs: std::collections::HashMap<String, Vec<(String, bool, String, String)>>, // key, flatten, ty, kind
+    pub enums: std::collections::HashMap<String, Vec<(String, String)>>,
+}
+
+pub fn load_shapes() -> Shapes {
+    let path = std::env::var("VERIF_GEN").unwrap_or_else(|_| "/verif/.gen/generated.json".into());
+    let g: Value = std::fs::read_to_string(&path).ok().and_then(|s| serde_json::from_str(&s).ok()).unwrap_or(json!({}));
+    let mut structs = std::collections::HashMap::new();
+    let mut enums = std::collections::HashMap::new();
+    for s in g["shapes"]["structs"].as_array().cloned().unwrap_or_default() {
+        let fs = s["fields"].as_array().cloned().unwrap_or_default().iter().map(|f| (f["key"].as_str().unwrap_or("").to_string(), f["flatten"].as_bool().unwrap_or(false), f["ty"].as_str().unwrap_or("").to_string(), f["kind"].as_str().unwrap_or("").to_string())).collect();
+        structs.insert(s["name"].as_str().unwrap_or("").to_string(), fs);
+    }
+    for e in g["shapes"]["enums"].as_array().cloned().unwrap_or_default() {
+        let vs = e["variants"].as_array().cloned().unwrap_or_default().iter().map(|v| (v["key"].as_str().unwrap_or("").to_string(), v["payload"].as_str().unwrap_or("").to_string())).collect();
+        enums.insert(e["name"].as_str().unwrap_or("").to_string(), vs);
+    }
+    Shapes { structs, enums }
+}
+
+fn first_currency(v: &Value) -> Option<String> {
+    match v {
+        Value::Object(o) => {
+            if let Some(c) = o.get("currency").and_then(|c| c.as_str()) { return Some(c.to_string()); }
+            o.values().find_map(first_currency)
+        }
+        Value::Array(a) => a.iter().find_map(first_currency),
+        _ => None,
+    }
+}
+
+fn json_of_field(ty: &str, tag: &str) -> Option<Value> {
+    let content = mgen_content(tag)?;
+    match crate::fields::parse_named(ty, content) {
+        crate::fields::Outcome::Ok { json, .. } => Some(json),
+        _ => None,
+    }
+}
+fn mgen_content(tag: &str) -> Option<&'static str> { crate::mgen::extra_content(tag) }
+
+/// every optional or repeatable member that the drawn message does NOT carry, added (one at a time) with a canonical value of
+/// its declared type — in the body and in every sequence element; a repeatable one as 1 and as 3 occurrences, the 3 also
+/// with the currency of the second / third occurrence changed.  The shipped scenarios never carry many optional members
+/// (field 65 of MT941, 13D, 21 …), so rules that look at them are otherwise never exercised.
+pub fn absent_member_mutants(code: u32, j: &Value, sh: &Shapes) -> Vec<(String, Value)> {
+    fn walk(sh: &Shapes, sname: &str, path: Vec<String>, root: &Value, out: &mut Vec<(String, Value)>) {
+        let mut rootc = root.clone();
+        let Some(Value::Object(obj)) = at(&mut rootc, &path).map(|v| v.clone()) else { return };
+        let Some(decls) = sh.structs.get(sname) else { if std::env::var("VERIF_DEBUG").is_ok() { eprintln!("no struct {sname}"); } return };
+        if std::env::var("VERIF_DEBUG").is_ok() { eprintln!("walk {sname} {:?} keys={:?}", path, obj.keys().collect::<Vec<_>>()); }
+        for (key, flatten, ty, kind) in decls {
+            if ty.starts_with("MT") && sh.structs.contains_key(ty) {
+                // a nested sequence: go into what is there
+                match obj.get(key) {
+                    Some(Value::Array(a)) => for i in 0..a.len().min(2) { let mut p = path.clone(); p.push(key.clone()); p.push(i.to_string()); walk(sh, ty, p, root, out); },
+                    Some(Value::Object(_)) => { let mut p = path.clone(); p.push(key.clone()); walk(sh, ty, p, root, out); }
+                    _ => {}
+                }
+                continue;
+            }
+            let candidates: Vec<(String, String)> = if *flatten { sh.enums.get(ty).cloned().unwrap_or_default() } else { vec![(key.clone(), ty.clone())] };
+            // optional components of a field that IS there (days of 23, additional information of 23E, funds code /
+            // supplementary details of 61, the sign of 37H, …), added one at a time
+            for (k, payload) in &candidates {
+                let targets: Vec<Vec<String>> = match obj.get(k) {
+                    Some(Value::Object(_)) => vec![{ let mut p = path.clone(); p.push(k.clone()); p }],
+                    Some(Value::Array(a)) => (0..a.len().min(2)).map(|i| { let mut p = path.clone(); p.push(k.clone()); p.push(i.to_string()); p }).collect(),
+                    _ => vec![],
+                };
+                let Some(sub) = sh.structs.get(payload) else { continue };
+                for tp in targets {
+                    let mut rc = root.clone();
+                    let Some(Value::Object(fo)) = at(&mut rc, &tp).map(|v| v.clone()) else { continue };
+                    for (sk, _, sty, skind) in sub {
+                        if skind != "opt" || fo.get(sk).is_some_and(|v| !v.is_null()) { continue; }
+                        let vals: Vec<Value> = match sty.as_str() {
+                            "String" if sk == "entry_date" => vec![json!("0315")],
+                            "String" => vec![json!("INFO1")],
+                            "char" => vec![json!("F")],
+                            "bool" => vec![json!(true)],
+                            "u32" | "u8" | "u16" => vec![json!(7), json!(10)],
+                            _ => vec![],
+                        };
+                        for val in vals {
+                            let mut m = root.clone();
+                            if let Some(Value::Object(o)) = at(&mut m, &tp) { o.insert(sk.clone(), val.clone()); }
+                            out.push((format!("add-component {}/{sk} = {val}", tp.join("/")), m));
+                        }
+                    }
+                }
+            }
+            if kind == "req" { continue; }
+            if candidates.iter().any(|(k, _)| obj.contains_key(k)) { continue; }
+            for (k, payload) in candidates {
+                let Some(mut v) = json_of_field(&payload, &k) else { if std::env::var("VERIF_DEBUG").is_ok() { eprintln!("no value for {payload} {k}"); } continue };
+                // the added value in the message's own currency (so that it agrees with the fields already there; the variants
+                // below then make single occurrences disagree)
+                if let (Some(c), Value::Object(o)) = (first_currency(root), &mut v) { if o.contains_key("currency") { o.insert("currency".into(), json!(c)); } }
+                let mut variants: Vec<(String, Value)> = Vec::new();
+                if kind == "vec" || kind == "optVec" {
+                    variants.push(("x1".into(), json!([v.clone()])));
+                    variants.push(("x3".into(), json!([v.clone(), v.clone(), v.clone()])));
+                    for pos in [1usize, 2] {
+                        for alt in ["EUR", "JPY", "USD"] {
+                            let mut w = v.clone();
+                            let mut changed = false;
+                            if let Value::Object(o) = &mut w { if let Some(c) = o.get_mut("currency") { if c.as_str() != Some(alt) { *c = json!(alt); changed = true; } } }
+                            if changed {
+                                let mut arr = vec![v.clone(), v.clone(), v.clone()];
+                                arr[pos] = w;
+                                variants.push((format!("x3, currency of occurrence {pos} = {alt}"), Value::Array(arr)));
+                            }
+                        }
+                    }
+                } else {
+                    variants.push(("".into(), v.clone()));
+                }
+                for (d, val) in variants {
+                    let mut m = root.clone();
+                    if let Some(Value::Object(o)) = at(&mut m, &path) { o.insert(k.clone(), val); }
+                    out.push((format!("add-absent {}/{k} {d}", path.join("/")), m));
+                }
+            }
+        }
+    }
+    let mut out = Vec::new();
+    walk(sh, &format!("MT{code}"), vec!["fields".to_string()], j, &mut out);
+    out
+}
+
 fn codes_of<T: SwiftMessageBody + serde::de::DeserializeOwned>(j: &Value) -> Option<Result<(Vec<String>, Value), ()>> {
     let m: SwiftMessage<T> = serde_json::from_value(j.clone()).ok()?;
     let body = serde_json::to_value(&m.fields).ok()?;
@@ -276,6 +502,7 @@ pub fn run(o: &Opts) -> Report {
         return rep;
     }
     let scs = scen::all_scenarios();
+    let shapes = load_shapes();
     let draws = if o.thorough() { 3 } else { 1 };
     let pairs = if o.thorough() { 100 } else { 40 };
     for &code in SUPPORTED.iter() {
@@ -308,7 +535,11 @@ pub fn run(o: &Opts) -> Report {
                 }
                 cases.extend(singles);
                 cases.extend(charge_mutants(code, &j));
+                cases.extend(sum_mutants(code, &j));
+                cases.extend(absent_member_mutants(code, &j, &shapes));
                 for (desc, jj) in cases {
+                    rep.tally(&format!("mutation:{}", desc.split(' ').next().unwrap_or("")));
+                    if desc.starts_with("add-absent") { rep.tally(&format!("add-absent:MT{code}")); }
                     let Some(res) = with_mt!(code, T => codes_of::<T>(&jj), None) else {
                         rep.tally("not-deserialisable");
                         continue;
